@@ -1,13 +1,16 @@
 """C09 part `rootrem` — the Newton iterations behind mpn_rootrem (rootrem_basecase.c, rootrem.c), merged into c09.py."""
 from genlib import *
 
-LEAN_MODULES = ["MpirProofs.Props.C09Rootrem"]
+LEAN_MODULES = ["MpirProofs.Props.C09Rootrem", "MpirProofs.Props.C09"]
 THEOREMS = ["Mpir.Rootrem.rootrem_basecase_spec", "Mpir.Rootrem.rootrem_basecase_spec_threshold",
             "Mpir.Rootrem.mpn_rootrem_newton_round_partial", "Mpir.Rootrem.mpn_rootrem_internal_round",
             "Mpir.Rootrem.mpn_rootrem_schedule_ok", "Mpir.Rootrem.mpn_rootrem_internal_spec",
-            "Mpir.Rootrem.mpn_rootrem_internal_approx_spec", "Mpir.Rootrem.mpn_rootrem_spec"]
+            "Mpir.Rootrem.mpn_rootrem_internal_approx_spec", "Mpir.Rootrem.mpn_rootrem_spec",
+            "Mpir.Root.rootrem_contract", "Mpir.Root.mpz_root_spec", "Mpir.Root.perfect_power_p_sound",
+            "Mpir.Root.perfect_power_p_iff"]
 PINS = [("mpn/generic/rootrem_basecase.c", "mpn_rootrem_basecase"), ("mpn/generic/pow_1.c", "mpn_pow_1"),
-        ("mpn/generic/rootrem.c", "mpn_rootrem"), ("mpn/generic/rootrem.c", "mpn_rootrem_internal")]
+        ("mpn/generic/rootrem.c", "mpn_rootrem"), ("mpn/generic/rootrem.c", "mpn_rootrem_internal"),
+        ("mpz/perfpow.c", None), ("mpz/root.c", None), ("mpz/rootrem.c", None), ("mpz/nthroot.c", None)]
 TRUSTED = ["hand-written model lean/Mpir/Model/Rootrem.lean: mpn_rootrem_basecase at value + limb-count level "
            "(every value, every limb count a test reads, every branch and ASSERT_ALWAYS in source order; buffer capacities "
            "PP_ALLOC/EXTRA and their ASSERT_ALWAYS, carries inside the mpn kernels are not represented); mpn_pow_1, mpn_tdiv_qr, "
@@ -202,7 +205,34 @@ def schedule_ops(rng, tier):
                 yield "mpn_rootrem_i_norem %s %x" % (vec(limbs_of(r ** k + 1)), k)
                 if r > 2: yield "mpn_rootrem_i %s %x" % (vec(limbs_of(r ** k - 1)), k)
 
+def perfpow_ops(rng, tier):
+    """mpz_perfect_power_p on the exits the completeness proof distinguishes: cofactors whose prime factors are all
+    >= SMALLEST_OMITTED_PRIME (1009) so that the root-attempt loops decide — exact root at a prime exponent reached late,
+    the cut-off `root < 1009` (1009^m has root exactly 1009 at nth = m, about 1009^(m/nth) before), the bounded loop over
+    prime divisors of n2 (2-adic valuation and small-prime multiplicities composite), negative operands (odd exponents
+    only; power-of-two multiplicities), cofactor 1."""
+    quick = tier == "quick"
+    big = [1009, 1013, 1019, 1021, 10007, 65537, (1 << 31) - 1, (1 << 61) - 1]
+    for _ in range(250 if quick else 3000):
+        m = rng.choice([2, 3, 5, 7, 11, 13, 17, 19, 23, 4, 6, 9, 15, 25, 49])
+        t = 1
+        for _ in range(rng.randrange(1, 3)): t *= rng.choice(big) ** rng.randrange(1, 3)
+        if t.bit_length() * m > 3000: continue
+        v = t ** m
+        n2 = rng.choice([0, 0, m, 2 * m, 3 * m, 6, 12, 15, 30, 4, 8, 9, 1, 2, 3])
+        sm = rng.choice([1, 1, 3 ** m, 3 ** (2 * m) * 5 ** (3 * m), 7 ** 6, 3 ** 4 * 5 ** 6, 3 ** 9 * 5 ** 6, 3 ** 2 * 997 ** 4])
+        for w in (v, v << n2, (v << n2) * sm, v * sm, (v + 2) << n2, v * rng.choice(big), 1 << n2, sm << n2):
+            if w > 1:
+                yield "mpz_perfect_power_p %s" % hx(w); yield "mpz_perfect_power_p %s" % hx(-w)
+    for m in range(2, 40):
+        for q in (1009, 1013):
+            yield "mpz_perfect_power_p %s" % hx(q ** m); yield "mpz_perfect_power_p %s" % hx(-(q ** m))
+            yield "mpz_perfect_power_p %s" % hx(q ** m * 1021)
+    for u in (0, 1, -1, 2, -2, 4, -4, 8, -8, 16, -16, 64, -64, 4096, -4096, 1 << 30, -(1 << 30), 1 << 64, -(1 << 64), -(1 << 63)):
+        yield "mpz_perfect_power_p %s" % hx(u)
+
 def gen_ops(rng, tier, ctx=None):
     yield from basecase_ops(rng, tier)
     yield from internal_ops(rng, tier)
     yield from schedule_ops(rng, tier)
+    yield from perfpow_ops(rng, tier)
